@@ -14,24 +14,5 @@ def run(R, tier, seed):
                       "future), and reports failures; mtime_secs returns the whole seconds since the epoch (0 before it / unreadable)",
                       "decided: given equal metadata the plan transfers and deletes nothing; a path is in the plan only if absent or size/mtime differ",
                       "is_excluded abstracted as an arbitrary predicate"]
-    ctx = planlib.Ctx()
-    R.extra["mir_dump"] = {"file": ctx.mir_path, "seconds": round(ctx.dump_s, 2)}
-    prover = planlib.Prover(R, tier)
-    steps = [
-        ("needs_transfer", lambda: planlib.needs_transfer_obligation(ctx, prover, "C14")),
-        ("validate-build_plan", lambda: planlib.validate_build_plan(ctx, R, seed, 10 if tier == "quick" else 60)),
-        ("build_plan", lambda: planlib.build_plan_obligation(ctx, prover, "C14", 3 if tier == "quick" else 5, seed)),
-    ]
-    from . import metalib
-    mctx = None
-
-    def meta_steps():
-        mc = metalib.ctx_with_meta()
-        metalib.set_mtime_obligation(mc, prover, "C14")
-        metalib.mtime_secs_obligation(mc, prover, "C14")
-    steps.append(("mtime-arithmetic", meta_steps))
-    for name, f in steps:
-        try:
-            f()
-        except (Unsupported, Inconclusive) as e:
-            R.add("C14/%s/encoding" % name, "inconclusive", detail=str(e)[:400])
+    from . import planjobs
+    planjobs.run(R, "C14", tier, seed, ["needs_transfer", "build_plan", "mtime"])
